@@ -26,7 +26,7 @@ def load_known(prop: str):
     if not os.path.exists(p):
         return [], []
     d = json.load(open(p))
-    return ([e for e in d.get("open", []) if e["property"] == prop],
+    return ([e for e in d.get("open", []) if prop in e.get("properties", [e.get("property")])],
             [e for e in d.get("fixed", []) if prop in e.get("properties", [e.get("property")])])
 
 
